@@ -358,13 +358,18 @@ def run_case(comp, op, vt, scratch, out, only=None):
             for k in sorted(set([1, ln // 2, ln - 1])):
                 if 0 < k < ln:
                     points.append((n, k))
+    # two ways to die at each point: killed on the spot (nothing of the code under test runs any more), or by an exception
+    # raised at the operation (an interrupt, a full disk) that unwinds through its finally / except / with blocks
+    points = [(n, k, death) for (n, k) in points for death in ("exit", "raise")]
     if only is not None:
+        only = tuple(only) + (("exit",) if len(tuple(only)) == 2 else ())
         points = [p for p in points if p == tuple(only)]
     if len(out["samples"]) < 2:
         out["samples"].append({"case": "%s/%s/%s" % (comp, op, vt), "trace": [list(t) for t in trace[:12]], "crash_points": len(points)})
-    for (n, k) in points:
+    for (n, k, death) in points:
         fresh_copy()
-        status, _ = crash.run_in_child(work, lambda: perform(build(comp, work)), target=n, torn=k)
+        status, _ = crash.run_in_child(work, lambda: perform(build(comp, work)), target=n, torn=k, mode=death)
+        out["counters"]["death." + death] = out["counters"].get("death." + death, 0) + 1
         if status != "crashed":
             out["counters"]["not_crashed"] = out["counters"].get("not_crashed", 0) + 1
             continue
@@ -381,7 +386,7 @@ def run_case(comp, op, vt, scratch, out, only=None):
             out["counters"]["observed." + cls] = out["counters"].get("observed." + cls, 0) + 1
             if kind is not None:
                 at = trace[n - 1]
-                viol(out, comp, op, vt, kind, {"comp": comp, "op": op, "vt": vt, "n": n, "torn": k},
+                viol(out, comp, op, vt, kind, {"comp": comp, "op": op, "vt": vt, "n": n, "torn": k, "death": death},
                      "crash before op %d/%d %r%s, read order %s: observed data %r marker %r" % (
                          n, L, at, " after %d bytes" % k if k else "", order, short(obs.get("data")), obs.get("marker")))
         # a restarted evaluation files 'ready' metadata for the key (the last progress report of evaluate_action does that
@@ -398,7 +403,7 @@ def run_case(comp, op, vt, scratch, out, only=None):
                 kind2 = classify(comp, dict(obs2, marker=None), old, new, op)
                 if kind2 is not None and "metadata of the other version" not in kind2:
                     viol(out, comp, op, vt, "after 'ready' metadata was filed following the restart: " + kind2,
-                         {"comp": comp, "op": op, "vt": vt, "n": n, "torn": k},
+                         {"comp": comp, "op": op, "vt": vt, "n": n, "torn": k, "death": death},
                          "crash before op %d/%d %r%s: observed data %r" % (n, L, trace[n - 1], " after %d bytes" % k if k else "", short(obs2.get("data"))))
             except Exception:
                 pass
@@ -421,7 +426,7 @@ def run_case(comp, op, vt, scratch, out, only=None):
             except Exception as e:
                 rk = "writing the entry again after the restart raises %s" % type(e).__name__
             if rk is not None:
-                viol(out, comp, op, vt, "after recovery: " + rk, {"comp": comp, "op": op, "vt": vt, "n": n, "torn": k},
+                viol(out, comp, op, vt, "after recovery: " + rk, {"comp": comp, "op": op, "vt": vt, "n": n, "torn": k, "death": death},
                      "crash before op %d/%d %r%s, then a complete store of a shorter value" % (n, L, trace[n - 1], " after %d bytes" % k if k else ""))
     shutil.rmtree(base, ignore_errors=True)
 
@@ -447,7 +452,7 @@ def run_shard(spec):
     scratch = spec["scratch"]
     if "replay" in spec:
         w = spec["replay"]
-        run_case(w["comp"], w["op"], w["vt"], scratch, out, only=(w["n"], w["torn"]) if w.get("n") else None)
+        run_case(w["comp"], w["op"], w["vt"], scratch, out, only=(w["n"], w["torn"], w.get("death", "exit")) if w.get("n") else None)
     else:
         for vt in spec["vtypes"]:
             run_case(spec["comp"], spec["op"], vt, scratch, out)
